@@ -476,6 +476,22 @@ def cache_shape(ctx: Ctx) -> RuleResult:
                               "opening with 'w' truncates: a run that fails afterwards (or never reaches the writer) leaves an empty file "
                               "where the checkpoint of an earlier run was - the restart has nothing to reuse", norm_src(oc)[:100])
     r.ob(n_open >= 2, {"open() calls on the cache paths": n_open})
+    # the writer is CALLED: when the executor's call returns the file is complete (never handed to a pool / a thread / a task as a value)
+    from ..ctx import parents_map
+
+    for g_ in ctx.funcs():
+        if g_.module.name.endswith("_twzsa_control"):
+            continue
+        pm_ = None
+        for x in iter_own_nodes(g_.node):
+            if isinstance(x, ast.Attribute) and x.attr == f.name and isinstance(x.ctx, ast.Load):
+                pm_ = pm_ or parents_map(g_.node)
+                par_ = pm_.get(id(x))
+                if not (isinstance(par_, ast.Call) and par_.func is x):
+                    r.ob(False, {"in": g_.short, "writer handed over as a value": norm_src(par_)[:80] if par_ is not None else None})
+                    r.violate(f"{g_.short}: the cache writer is handed over as a value ({norm_src(par_)[:60] if par_ is not None else norm_src(x)})", g_.loc(x),
+                              "the file is written by someone else, later: the executor's call returns while the cache file does not exist "
+                              "yet or is half written - a restart that follows at once fails or reads a truncated file", norm_src(x))
     # the caller passes the results of the run
     post = [g for g, c in ctx.callers_of(f.qualname)]
     r.ob(len(post) >= 1, {"written from": [g.short for g in post]})
